@@ -336,7 +336,7 @@ def scn(sym, cov, n, funcs, cancel=None, abandon=False, eager=False, T=1, J=2, p
 def units(tier):
     quick = tier == "quick"
     us = []
-    B_ = 240 if quick else 1500
+    B_ = 240 if quick else 3000
 
     def add(name, funcs, **p):
         p.setdefault("T", 1)
